@@ -1,7 +1,7 @@
 """Common driver for the session-based checks: run families of sessions through the real
 pipeline, let CalcSem (TLC) judge the recorded observations, classify divergences against the
 known findings, count coverage."""
-import json
+import json, os
 import vlib, sess, findings
 from astlib import walk
 
@@ -33,7 +33,7 @@ def replay_case(v):
             "cmp": v.session.get("cmp"), "mode": v.session.get("mode"), "divergence": v.info, "real": v.real}
 
 
-def run_families(ck, families, nontrivial=None, maxsteps=60000, guard_is_violation=False, budget=0):
+def run_families(ck, families, nontrivial=None, maxsteps=60000, guard_is_violation=False, budget=0, crash_is_violation=False):
     """families: list of (name, sessions, cmp, mode).  Updates ck; returns list of verdicts"""
     allv = []
     seen = set()
@@ -46,6 +46,14 @@ def run_families(ck, families, nontrivial=None, maxsteps=60000, guard_is_violati
         st = {"sessions": len(vs), "accepted": 0, "unspecified": 0, "diverged": 0, "guard_skipped": 0, "known": 0}
         for v in vs:
             ck.cov["evaluations"] += 1
+            crashed = [o for o in (v.real or []) if o.get("kind") in ("panic", "hang", "crash") or str(o.get("err", "")).startswith("other:")]
+            if crash_is_violation and crashed and v.status in ("accept", "guard"):
+                # the specification stopped judging (Unspecified) before the crash: "no crash" still applies
+                o = crashed[0]
+                i = (v.real or []).index(o)
+                v.status = "diverge"
+                v.info = {"id": v.session["id"], "item": i + 1, "aspect": "kind", "expected": {"any": "value or documented runtime error"},
+                          "recorded": sess.to_rec(o) if o.get("kind") != "err" else {"kind": "err", "err": o.get("err")}}
             if v.status == "accept":
                 st["accepted"] += 1
                 ck.cov["traces_validated_against_impl"] += 1
@@ -62,6 +70,10 @@ def run_families(ck, families, nontrivial=None, maxsteps=60000, guard_is_violati
                 if fid:
                     st["known"] += 1
                     ck.known_finding(fid[0], fid[1])
+                    if os.environ.get("VERIF_DUMPKNOWN"):
+                        os.makedirs(os.path.join(vlib.VERIF, "evidence", "replay"), exist_ok=True)
+                        json.dump({"finding": fid[0], "description": describe(v), "case": replay_case(v)},
+                                  open(os.path.join(vlib.VERIF, "evidence", "replay", "known_%s_%s_%d.json" % (ck.pid, fid[0], v.session["id"])), "w"))
                 else:
                     ck.violation(describe(v), replay_case(v))
             elif v.status == "guard":
